@@ -21,34 +21,6 @@ def cellOf (j : Json) : Except String Cell := do
   | .ok v => pure (Cell.qual (← asNatList v))
   | .error _ => throw "bad cell"
 
-def isVcf (fmt : String) : Bool := fmt == "vcf" || fmt == "vcfs" || fmt == "vcf2"
-
-def prep (fmt : String) (rows : List Row) : List Row :=
-  if isVcf fmt then rows.map (shiftPos 1)
-  else if fmt == "gfa" then rows.map (fun r => Cell.text [83] :: r)
-  else rows
-
-def entriesOf (rows : List Row) : List (C02.Bytes × C02.Bytes) :=
-  rows.map (fun r => match r.map cellText with
-    | [n, s] => (n, s)
-    | _ => ([], []))
-
-/-- the code's serialiser for one `write` call -/
-def dumpModel (fmt : String) (rows : List Row) : C02.Bytes :=
-  if fmt == "fasta" then (if rows = [] then [] else dumpFasta Gen.C03.fastaLineWidth (entriesOf rows))
-  else if fmt == "fastq" then dumpFastq Gen.C03.fastqMarker Gen.C03.fastqLineOffsets rows
-  else if fmt == "fasta2" then joinFields Gen.C03.fastaMarker [1, 0] (rows.map (·.map cellText))
-  else
-    let rs := prep fmt rows
-    dumpDelimited ((rs.head?.map List.length).getD 0) rs
-
-/-- the canonical serialisation -/
-def dumpCanon (fmt : String) (rows : List Row) : C02.Bytes :=
-  if fmt == "fasta" then fastaSpec 80 (entriesOf rows)
-  else if fmt == "fastq" then fastqSpec rows
-  else if fmt == "fasta2" then (entriesOf rows).flatMap (fun e => 62 :: e.1 ++ [10] ++ e.2 ++ [10])
-  else dumpSpec 9 ((prep fmt rows).map (·.map cellText))
-
 def handle (op : String) (j : Json) : Except String Json := do
   match op with
   | "write" =>
@@ -75,7 +47,7 @@ def handle (op : String) (j : Json) : Except String Json := do
     let hdr : C02.Bytes := match hdrJ with
       | some h => toBytes h
       | none => if isVcf fmt then Gen.C03.vcfDefaultHeader else []
-    let dump := dumpModel fmt
+    let dump := dumpModel Gen.C03.consts fmt
     let bytes := runAll hdr dump [] sess
     let m := Json.mkObj [("bytes", txt bytes)]
     let nh : Nat := if (isVcf fmt || hdrJ.isSome) && sess.flatMap Sess.calls != [] then 1 else 0
